@@ -34,7 +34,9 @@ SINK_SRC = ["C05_sink_src", "C05_sink_ok_src", "C05_sink_prefix_src", "C05_sink_
 STREAM_GEN = ["C05_stream_gen", "C05_stream_gen_model", "C05_stream_read_gen", "C05_stream_truncated_gen"]
 # phase 4: io.ReadFull over scripts is additive (FillAdd.lean); the regenerated streaming Read = the hand-written one (TieExact.lean)
 FILLADD = ["C05_readfull_additive", "C05_reader_state_unique"]
-EXACT = ["C05_stream_gen_exact", "C05_read_sequence_gen"]
+EXACT = ["C05_stream_gen_exact", "C05_read_sequence_gen", "C05_retry_gen"]
+# phase 4: the reader after a failed io.ReadFull, wkb.Read called again (Retry.lean, ProofsRetry.lean)
+RETRY = ["C05_readfull_failed", "C05_failed_read_state", "C05_retry"]
 FUEL = ["C05_truncated_decode", "C05_decode_no_fuel", "C05_fuel_irrelevant"]
 # wkb.Write call by call over a model of io.Writer (lean/GeomV/C05/Sink.lean, ProofsSink.lean)
 SINK = ["C05_sink_ok", "C05_sink_prefix", "C05_sink_limit", "C05_sink_limit_fresh", "C05_sink_unsupported", "C05_sink_unsupported_any"]
@@ -46,7 +48,7 @@ BIN = ["C05_bin_uint32", "C05_bin_uint64", "C05_bin_put", "C05_bin_readU32", "C0
 STREAM = ["C05_readfull", "C05_stream_model", "C05_stream_read", "C05_read_sequence", "C05_truncated", "C05_stream_truncated"]
 CFG = {
     "id": "C05",
-    "lean_modules": ["GeomV.C05.Proofs", "GeomV.C05.ProofsStream", "GeomV.C05.ProofsCount", "GeomV.C05.ProofsBin", "GeomV.C05.ProofsFuel", "GeomV.C05.ProofsSink", "GeomV.C05.FillAdd", "GeomV.C05.Tie", "GeomV.C05.TieStream", "GeomV.C05.TieGenS", "GeomV.C05.TieExact", "GeomV.C05.TieSink"],
+    "lean_modules": ["GeomV.C05.Proofs", "GeomV.C05.ProofsStream", "GeomV.C05.ProofsCount", "GeomV.C05.ProofsBin", "GeomV.C05.ProofsFuel", "GeomV.C05.ProofsSink", "GeomV.C05.FillAdd", "GeomV.C05.ProofsRetry", "GeomV.C05.Tie", "GeomV.C05.TieStream", "GeomV.C05.TieGenS", "GeomV.C05.TieExact", "GeomV.C05.TieSink"],
     "exe": "geomv_c05",
     "go_cmd": "c05",
     "stages": ["go:gen", "lean:prep", "go:impl", "lean:judge"],
@@ -55,7 +57,7 @@ CFG = {
                                 + [n for n in TIES if n != "tie_dispatch"] + SRC]
                  + [T + "Stream." + n for n in STREAM] + [T + n for n in COUNT] + [T + "BinStd." + n for n in BIN]
                  + [T + "GenS." + n for n in TIES_S] + [T + n for n in STREAM_GEN] + [T + "Fuel." + n for n in FUEL] + [T + "Sink." + n for n in SINK]
-                 + [T + "Stream." + n for n in FILLADD] + [T + n for n in EXACT]
+                 + [T + "Stream." + n for n in FILLADD + RETRY] + [T + n for n in EXACT]
                  + [T + "GenW." + n for n in TIES_W] + [T + n for n in SINK_SRC],
     "trusted_base": [
         "Lean 4.33.0 kernel; axioms of every theorem printed by #print axioms must be within {propext, Classical.choice, Quot.sound}",
